@@ -267,7 +267,29 @@ fn text_fault(r: &mut Rng, s: &str, donor: &str, log: &mut Vec<String>, out: &mu
   let p = r.below(cs.len());
   let mut v = cs.clone();
   const PUNCT: &[char] = &['(', ')', '[', ']', '{', '}', '<', '>', '/', ',', ':', '=', '"', '\'', '.', '*', '?', '+', '#', '~', '&', '^', '$', '-', '\\', ';', '\n', ' ', '0', '9', 'e', 'x', 'h'];
-  match r.below(7) {
+  match r.below(9) {
+    7 => {
+      // a non-ASCII character (2, 3 and 4 bytes in UTF-8, a combining mark, a line separator) somewhere: byte
+      // offsets and character offsets part ways from here on
+      let c = *r.pick(&['\u{e9}', '\u{540d}', '\u{1f600}', '\u{301}', '\u{2028}', '\u{a0}', '\u{feff}']);
+      v.insert(p, c);
+      out.fault("text_insert_nonascii");
+      log.push(format!("text_insert_nonascii({}, {:?})", p, c));
+    }
+    8 => {
+      // the text stops in the middle of a rule, after a comment: error positions are computed at the end of
+      // the input, looking back over white space and comments
+      let cut = if r.coin() { p } else { cs.len() };
+      v.truncate(cut);
+      let tail = *r.pick(&["\nzz = ", "\nzz = [ int, ", "\nzz = { k: tstr, ", "\nzz = int / ", "\nzz<T> = ", "\nzz = #6.", "\nzz = ( a: int, ", " / ", " ,", ""]);
+      let comment = *r.pick(&["", "; note", "; \u{e9}", "; cl\u{e9}", "; \u{540d}\u{524d}", ";\u{1f600}", "; a\u{301}", "; x ;; \u{a0}"]);
+      let end = *r.pick(&["", "\n", " \n", "\r\n", "\n\n", "\t"]);
+      v.extend(tail.chars());
+      v.extend(comment.chars());
+      v.extend(end.chars());
+      out.fault("text_dangling_tail");
+      log.push(format!("text_dangling_tail({}, {:?}, {:?}, {:?})", cut, tail, comment, end));
+    }
     0 => {
       v.truncate(p);
       out.fault("text_truncate");
